@@ -223,6 +223,22 @@ class Check:
             self.events += sum(len(t) for t in traces)
         return flat
 
+    def screen(self, traces, module, *, constants=None, **kw):
+        """Traces in which a call into the code under verification raised (event "Raised", see harness/total.py)
+        are judged here - no action of any trace specification admits that event - and taken out of the list,
+        so that statistics and negative controls only see well-formed observations."""
+        bad = [t for t in traces if any(isinstance(e, dict) and e.get("act") == "Raised" for e in t)]
+        if not bad:
+            return traces
+        res = self.validate(module, bad, constants=constants, label="raised", **kw)
+        for r in res:
+            if r["accepted"]:
+                raise MachineryError(f"{module} admitted a trace with a Raised event")
+        self.judge(bad, res, describe=lambda t: next(e for e in t if e.get("act") == "Raised"))
+        self.extra["raised_in_code_under_test"] = self.extra.get("raised_in_code_under_test", 0) + len(bad)
+        ids = {id(t) for t in bad}
+        return [t for t in traces if id(t) not in ids]
+
     def negative_controls(self, module, controls, *, constants=None, env=None):
         """controls: list of (name, trace) that MUST be rejected by the trace spec."""
         if not controls:
@@ -329,12 +345,19 @@ def main(prop, body, level="model_checking"):
         body(c)
         rc = c.finish()
     except MachineryError as e:
+        if c.violations:
+            # violations already witnessed (each with a replay) stand, whatever stopped the rest of the check
+            c.notes.append(f"check stopped early after {len(c.violations)} violation(s): {str(e)[:300]}")
+            sys.exit(c.finish())
         print(f"MACHINERY-FAILURE property={prop}: {e}", file=sys.stderr)
         if not c.args.keep:
             shutil.rmtree(c.wd, ignore_errors=True)
         sys.exit(2)
-    except Exception:
+    except Exception as e:  # noqa: BLE001
         traceback.print_exc()
+        if c.violations:
+            c.notes.append(f"check stopped early after {len(c.violations)} violation(s): {type(e).__name__} {str(e)[:300]}")
+            sys.exit(c.finish())
         print(f"MACHINERY-FAILURE property={prop}: unexpected exception", file=sys.stderr)
         if not c.args.keep:
             shutil.rmtree(c.wd, ignore_errors=True)
